@@ -318,6 +318,52 @@ func (d *D) NewSpec(kind, name string, shard, nshards int) Spec {
 		Dir: d.Out, Flavour: "plain", TimeoutS: int(d.Pick(240, 900)), Args: map[string]string{}, Replay: nil}
 }
 
+// runtimeVariants are Go runtime settings under which a concurrent workload is repeated: the scheduler and the
+// garbage collector decide which interleavings and which sync.Pool reuse patterns occur (a GC cycle empties the
+// pools; with one P goroutines only switch at preemption/blocking points), so the same seeded workload explores
+// different executions under each of them.
+var runtimeVariants = []struct {
+	name string
+	env  []string
+}{
+	{"p2", []string{"GOMAXPROCS=2"}},
+	{"gc1", []string{"GOGC=1"}},
+	{"p1", []string{"GOMAXPROCS=1"}},
+	{"p3gc5", []string{"GOMAXPROCS=3", "GOGC=5"}},
+	{"p64", []string{"GOMAXPROCS=64"}},
+}
+
+// WithRuntimeVariants appends, for every `every`-th spec accepted by `pick`, a copy that runs under one of the
+// runtimeVariants (chosen cyclically, offset by the seed).
+func (d *D) WithRuntimeVariants(specs []Spec, every int, pick func(Spec) bool) []Spec {
+	out := append([]Spec(nil), specs...)
+	k := 0
+	for _, s := range specs {
+		if pick != nil && !pick(s) {
+			continue
+		}
+		k++
+		if k%every != 0 {
+			continue
+		}
+		v := runtimeVariants[(k/every+int(d.Seed))%len(runtimeVariants)]
+		c := s
+		c.Name = s.Name + "-" + v.name
+		c.Args = map[string]string{}
+		for a, b := range s.Args {
+			c.Args[a] = b
+		}
+		c.Env = append(append([]string(nil), s.Env...), v.env...)
+		c.Shard = s.Shard + 7919 // a different PRNG stream than the original
+		out = append(out, c)
+		d.mu.Lock()
+		d.Counters["runtime_variant_workers"]++
+		d.Set["runtime-variant|"+v.name] = struct{}{}
+		d.mu.Unlock()
+	}
+	return out
+}
+
 // RunWorkers runs the given specs as child processes, at most par at a time, and merges their results.
 func (d *D) RunWorkers(specs []Spec, par int) []*WorkerOut {
 	if par <= 0 {
